@@ -301,6 +301,11 @@ func checkC06(c *Ctx) {
 	r.Rule("R06f", "JSON arms of body codecs consult the message's own codec first", 6)
 	r.Rule("R06g", "operation responses and built-in error schemas", 6)
 
+	r.Rule("R06i", "string-valued enum/const scalars of the published schemas (discriminator values, enum names) are tagged as strings (shared with C19/R19f)", 4)
+	if pk := c.P.Pkg(pkgOpenAPI); pk != nil {
+		c19StringTags(c, c.oaDecls(pkgOpenAPI), pk.TypesInfo, "R06i")
+	}
+
 	conv := c.P.Func(pkgOpenAPI, "Generator.convertField")
 	if conv == nil {
 		r.Unres("R06a", "convertField", "", "not found")
